@@ -45,6 +45,9 @@ type JobResult struct {
 	Samples     []string
 	SolverTime  time.Duration
 	Queries     int
+	LIAUnsat    int
+	LIAQueries  int
+	LIATime     time.Duration
 	Wall        time.Duration
 	Err         string
 }
@@ -59,6 +62,9 @@ type Options struct {
 	Debug     bool
 	Solver    string
 	NoReplay  bool
+	Verbose   bool
+	PLo, PHi  int
+	PSet      bool
 }
 
 // initState runs the package initialisers of netpoll and mux once.
@@ -118,10 +124,24 @@ func runJob(ld *Loaded, base *sym.State, j Job, opt Options) JobResult {
 		}
 	}
 	r := sym.NewRun(ld.Eng, s, j.Name())
+	if os.Getenv("VERIF_NOLIA") == "" {
+		if ls, err := smt.NewSolver("z3-new", 3000); err == nil {
+			ls.LIA = true
+			r.LIA = ls
+			defer ls.Close()
+			if lp := os.Getenv("VERIF_SMTLOG"); lp != "" {
+				if f, err := os.Create(lp + "." + sanitizeFile(j.Name()) + ".lia.smt2"); err == nil {
+					ls.Log = f
+					defer f.Close()
+				}
+			}
+		}
+	}
 	if j.H.Loop > 0 {
 		r.LoopBound = j.H.Loop
 	}
-	if j.H.NoPanicCheck {
+	r.Prop = opt.Prop
+	if j.H.NoPanicCheck || j.H.Prop != opt.Prop {
 		r.PanicIsViolation = false
 	}
 	st := base.Fork()
@@ -155,7 +175,21 @@ func runJob(ld *Loaded, base *sym.State, j Job, opt Options) JobResult {
 	res.Samples = r.Samples
 	res.SolverTime = s.Time
 	res.Queries = s.Queries
+	if r.LIA != nil {
+		res.SolverTime += r.LIA.Time
+		res.Queries += r.LIA.Queries
+		res.LIAUnsat = r.LIAUnsat
+		res.LIAQueries = r.LIA.Queries
+		res.LIATime = r.LIA.Time
+	}
 	res.Wall = time.Since(t0)
+	if opt.Verbose {
+		for b := 0; b < 16; b++ {
+			if s.Hist[b] > 0 {
+				fmt.Fprintf(os.Stderr, "   hist <%dms: n=%d total=%.1fs\n", 1<<uint(b), s.Hist[b], s.HistT[b].Seconds())
+			}
+		}
+	}
 	return res
 }
 
@@ -228,7 +262,7 @@ func RunProperty(opt Options) int {
 	}
 	var jobs []Job
 	for _, h := range ld.Harnesses {
-		if h.Prop != opt.Prop {
+		if h.Prop != opt.Prop && !contains(h.Also, opt.Prop) {
 			continue
 		}
 		if h.Tier == "thorough" && opt.Tier != "thorough" {
@@ -242,6 +276,9 @@ func RunProperty(opt Options) int {
 		}
 		if h.HasParam {
 			for p := h.ParamLo; p <= h.ParamHi; p++ {
+				if opt.PSet && (p < opt.PLo || p > opt.PHi) {
+					continue
+				}
 				jobs = append(jobs, Job{H: h, Param: p})
 			}
 		} else {
@@ -263,6 +300,16 @@ func RunProperty(opt Options) int {
 			defer func() { <-sem }()
 			j := jobs[i]
 			results[i] = runJob(ld, base, j, opt)
+			if opt.Verbose {
+				rr := results[i]
+				fmt.Fprintf(os.Stderr, "job %s: paths=%d obl=%d dis=%d unk=%d viol=%d ends=%v q=%d lia=%d/%d(%.1fs) solver=%.1fs wall=%.1fs %s\n", j.Name(), rr.Paths, rr.Obligations, rr.Discharged, rr.Unknown, len(rr.Violations), rr.Ends, rr.Queries, rr.LIAUnsat, rr.LIAQueries, rr.LIATime.Seconds(), rr.SolverTime.Seconds(), rr.Wall.Seconds(), rr.Err)
+				for _, v := range rr.Violations {
+					fmt.Fprintf(os.Stderr, "   VIOL %s @%s %s\n", v.Label, v.Pos, v.Msg)
+				}
+				for k, n := range rr.EndMsgs {
+					fmt.Fprintf(os.Stderr, "   END x%d %s\n", n, k)
+				}
+			}
 		}(i)
 	}
 	wg.Wait()
@@ -474,4 +521,13 @@ func solverName(opt Options) string {
 		return "z3-new (z3 5.1.0)"
 	}
 	return opt.Solver
+}
+
+func contains(l []string, s string) bool {
+	for _, x := range l {
+		if x == s {
+			return true
+		}
+	}
+	return false
 }
